@@ -130,3 +130,10 @@ func Fail(format string, a ...interface{}) {
 type Stater interface {
 	State(ctx sdk.Context) string
 }
+
+// GenesisStater is implemented by runners whose query projection contains objects the module
+// documents as dropped on export (closed HTLCs, in-flight requests, …): GenesisState renders
+// only what the property C12 says must survive an export/import round trip.
+type GenesisStater interface {
+	GenesisState(ctx sdk.Context) string
+}
